@@ -190,6 +190,8 @@ pub fn extreme_values(is_hex: bool, int_max: u64) -> Vec<(String, BigUint)> {
         ("0".into(), BigUint::from(0u8)),
         ("1".into(), one.clone()),
         ("2^16".into(), &one << 16),
+        ("2^24".into(), &one << 24),
+        ("2^31".into(), &one << 31),
         ("2^32".into(), &one << 32),
         ("2^40".into(), &one << 40),
         ("2^63".into(), &one << 63),
